@@ -78,7 +78,6 @@ Section Results.
   Variables nn ppn count : nat.
   Hypothesis ppn_pos : 0 < ppn.
   Let P := nn * ppn.
-  Variable contrib : nat -> vec.
 
   (* node communicators of a contiguous equal-size partition: explicit processes_per_node, or MPI_Comm_split_type
      reporting blocks of ppn consecutive ranks (GridProofs.split_type_contiguous: these are the same) *)
@@ -109,6 +108,22 @@ Section Results.
     fold comms_explicit. rewrite writer_explicit, E by exact Hr. apply node_major_explicit.
     apply Nat.div_lt_upper_bound; [lia|unfold P in Hr; lia].
   Qed.
+
+  (* who may write: every rank for the private flavours, the first rank of each node for the window flavours *)
+  Theorem write_start_explicit f r : r < P ->
+    write_start comms_explicit f r = if is_shared f then (r mod ppn =? 0) else true.
+  Proof.
+    intros Hr. unfold write_start. rewrite writer_explicit by exact Hr. destruct (is_shared f); [|apply Nat.eqb_refl].
+    pose proof (Nat.div_mod r ppn ltac:(lia)) as D.
+    destruct (r mod ppn =? 0) eqn:E; [apply Nat.eqb_eq in E; apply Nat.eqb_eq; lia|apply Nat.eqb_neq in E; apply Nat.eqb_neq; lia].
+  Qed.
+
+  (* sc_shmem_memcpy: every rank afterwards reads its writer's source; identical sources give identical copies *)
+  Theorem memcpy_explicit f (src : nat -> list Z) r : (forall q q', src q = src q') ->
+    shmem_memcpy comms_explicit f src r = src r.
+  Proof. intros H. unfold shmem_memcpy. apply H. Qed.
+
+  Variable contrib : nat -> vec.
 
   (* sc_shmem_allgather: contributions of ranks 0 .. P-1 in rank order, whatever the flavour and the reading rank *)
   Theorem allgather_explicit f r : r < P -> shmem_allgather P comms_explicit f contrib r = rank_order P contrib.
@@ -157,7 +172,7 @@ Section Results.
     - cbn [concat]. f_equal. unfold gather.
       set (rows := prefix_rows wr (repeat 0%Z count) (map contrib (seq 0 P))).
       assert (L : length rows = P) by (unfold rows; rewrite prefix_rows_length, map_length, seq_length; reflexivity).
-      f_equal. rewrite <- (map_nth_all rows []) at 2. rewrite L. apply map_ext_in. intros q Hq. apply in_seq in Hq.
+      f_equal. rewrite <- (map_nth_all rows []), L. apply map_ext_in. intros q Hq. apply in_seq in Hq.
       apply scan_is_row. lia.
     - unfold scan_on_array. rewrite scan_rows_prefix. reflexivity.
   Qed.
@@ -171,19 +186,6 @@ Section Results.
     clear -H0. induction count as [|n IH]; [reflexivity|]. simpl. rewrite H0, IH. reflexivity.
   Qed.
 
-  (* who may write: every rank for the private flavours, the first rank of each node for the window flavours *)
-  Theorem write_start_explicit f r : r < P ->
-    write_start comms_explicit f r = if is_shared f then (r mod ppn =? 0) else true.
-  Proof.
-    intros Hr. unfold write_start. rewrite writer_explicit by exact Hr. destruct (is_shared f); [|apply Nat.eqb_refl].
-    pose proof (Nat.div_mod r ppn ltac:(lia)) as D.
-    destruct (r mod ppn =? 0) eqn:E; [apply Nat.eqb_eq in E; apply Nat.eqb_eq; lia|apply Nat.eqb_neq in E; apply Nat.eqb_neq; lia].
-  Qed.
-
-  (* sc_shmem_memcpy: every rank afterwards reads its writer's source; identical sources give identical copies *)
-  Theorem memcpy_explicit f (src : nat -> list Z) r : (forall q q', src q = src q') ->
-    shmem_memcpy comms_explicit f src r = src r.
-  Proof. intros H. unfold shmem_memcpy. apply H. Qed.
 End Results.
 
 (* not attached at all: every flavour is the basic one *)
@@ -239,6 +241,22 @@ Proof. reflexivity. Qed.
 Lemma split_type_intra_members P nd q nc : attach_split_type P nd q = Some nc -> intra nc = members P nd (nd q).
 Proof. unfold attach_split_type. destruct (equal_sizes P nd); [|discriminate]. intros E. injection E as <-. reflexivity. Qed.
 
+Corollary one_writer_explicit nn ppn f r : 0 < ppn -> r < nn * ppn -> is_shared f = true ->
+  let row := members (nn * ppn) (fun q => q / ppn) (r / ppn) in
+  In (hd r row) row /\ forall q, In q row -> (write_start (comms_explicit nn ppn) f q = true <-> q = hd r row).
+Proof.
+  intros Hp Hr Hs. apply (one_writer_per_node (nn * ppn) (fun q => q / ppn) (comms_explicit nn ppn)); [|exact Hr|exact Hs].
+  intros q _. eexists. split; [reflexivity|]. reflexivity.
+Qed.
+
+Corollary one_writer_split_type P nd f r : equal_sizes P nd = true -> r < P -> is_shared f = true ->
+  let row := members P nd (nd r) in
+  In (hd r row) row /\ forall q, In q row -> (write_start (attach_split_type P nd) f q = true <-> q = hd r row).
+Proof.
+  intros He Hr Hs. apply (one_writer_per_node P nd (attach_split_type P nd)); [|exact Hr|exact Hs].
+  intros q _. unfold attach_split_type. rewrite He. eexists. split; [reflexivity|]. reflexivity.
+Qed.
+
 (* ---- F-C14a: node classes that are not contiguous in rank order ---------------------------------------------- *)
 (* P = 4, two nodes of two ranks placed round robin (node = rank mod 2), window flavour, contribution of rank q = [q]:
    all node sizes are equal, the communicators are attached, and the array holds 0 2 1 3 *)
@@ -287,7 +305,7 @@ Section Life.
       destruct (Nat.eq_dec (S (next_id s)) (S (next_id s))) as [_|N]; [|congruence].
       split; [|reflexivity]. apply remove_fresh. intros H. apply fresh in H. lia.
     - cbn [remove]. destruct (Nat.eq_dec (next_id s) (next_id s)) as [_|N]; [|congruence].
-      rewrite none. cbn [live attr]. split; [apply remove_fresh, next_not_live|reflexivity].
+      split; [apply remove_fresh, next_not_live|reflexivity].
   Qed.
 
   (* node sizes differ: nothing is attached and the one communicator that was created is freed at once *)
